@@ -19,7 +19,7 @@ pub fn make_frame(name: &str, body_len: usize) -> Frame {
         body.put_u8(keyed(name, i));
     }
     let mut f = Frame::from_body(body.freeze());
-    f.session_id = name.bytes().fold(7u32, |a, b| a * 131 + b as u32);
+    f.session_id = name.bytes().fold(7u32, |a, b| a.wrapping_mul(131).wrapping_add(b as u32));
     f.addr = Some("1.2.3.4:5".parse().unwrap());
     f
 }
